@@ -96,6 +96,15 @@ TEMPLATES = [
     ('LD (nn),HL FFFF', [0x22, 0xFF, 0xFF], {}),
 ]
 
+# halted CPU: the re-fetch goes to PC+1
+TEMPLATES += [
+    ('HALT (halted)', [0x76], {'HALTED': 1}),
+    ('HALT (halted) code unc', [0x76], {'HALTED': 1, 'PC': 0x8000}),
+]
+for _b in (0x7FFF, 0xBFFF, 0xFFFF):
+    TEMPLATES += [('HALT PC=%04X' % _b, [0x76], {'PC': _b}), ('HALT (halted) PC=%04X' % _b, [0x76], {'PC': _b, 'HALTED': 1}),
+                  ('HALT (halted) PC=%04X' % (_b - 1), [0x76], {'PC': _b - 1, 'HALTED': 1})]
+
 # straddles: 16-bit data/stack accesses and multi-byte instructions lying across every 16K boundary
 for _b in (0x3FFF, 0x7FFF, 0xBFFF, 0xFFFF):
     _n = '%04X' % _b
@@ -206,4 +215,5 @@ def state_regs(tpl):
     regs[14] = r['I']
     regs[24] = r['PC']
     regs[27] = 1
+    regs[28] = r.get('HALTED', 0)
     return regs
